@@ -23,6 +23,7 @@ import (
 	"time"
 
 	conformancev1 "connectrpc.com/conformance/internal/gen/proto/go/connectrpc/conformance/v1"
+	"connectrpc.com/conformance/internal/tracer"
 	"connectrpc.com/conformance/internal/verif/gate"
 	"connectrpc.com/conformance/internal/verif/rep"
 	"google.golang.org/protobuf/encoding/protojson"
@@ -719,3 +720,165 @@ func TestVerifC04Batch(t *testing.T) {
 }
 
 var _ = errors.New
+
+// --- level (iii): the result table alone ---------------------------------------
+
+// TestVerifC04Report enumerates histories of the result table itself: for 1 and 2 cases every
+// combination of recorded outcome x marking x peer feedback x HTTP trace (tracing off, on
+// without a trace arriving, on with a trace delivered before or after the outcome), then
+// report(). Same truth table as the other levels.
+func TestVerifC04Report(t *testing.T) {
+	r := rep.New("c04-report")
+	defer r.Write()
+	r.Rule = "histories of the result table for 1-2 cases: outcome (pass, assertion failure, setup error, could-not-run, none) x marking x peer feedback x tracing (off / on, no trace / trace before the outcome / trace after the outcome); report() judged by the truth table; non-trivial = distinct history"
+	outcomes := []string{"pass", "fail", "setup", "norun", "none"}
+	marks := []string{"", "failing", "flaky"}
+	traces := []string{"off", "on-none", "on-before", "on-after"}
+	type one struct {
+		Outcome, Mark, Trace string
+		Feedback             bool
+	}
+	var singles []one
+	for _, o := range outcomes {
+		for _, m := range marks {
+			for _, tr := range traces {
+				for _, fb := range []bool{false, true} {
+					singles = append(singles, one{o, m, tr, fb})
+				}
+			}
+		}
+	}
+	var k int64
+	run := func(cs []one) {
+		k++
+		if !r.Mine(k) {
+			return
+		}
+		tracing := false
+		for _, c := range cs {
+			if c.Trace != "off" {
+				tracing = true
+			}
+		}
+		var text string
+		var ok bool
+		synctest.Test(t, func(t *testing.T) {
+			failing, flaky := &testTrie{}, &testTrie{}
+			var trc *tracer.Tracer
+			if tracing {
+				trc = &tracer.Tracer{}
+			}
+			names := make([]string, len(cs))
+			for i, c := range cs {
+				names[i] = fmt.Sprintf("s/c%d", i)
+				switch c.Mark {
+				case "failing":
+					failing.addPattern(names[i])
+				case "flaky":
+					flaky.addPattern(names[i])
+				}
+			}
+			res := newResults(len(cs), failing, flaky, trc)
+			for i, c := range cs {
+				n := names[i]
+				trc.Init(n)
+				if c.Trace == "on-before" {
+					trc.Complete(tracer.Trace{TestName: n})
+				}
+				switch c.Outcome {
+				case "pass":
+					res.setOutcome(n, false, nil)
+				case "fail":
+					res.setOutcome(n, false, errors.New("expecting data 6f6b, got 77726f6e67"))
+				case "setup":
+					res.setOutcome(n, true, errors.New("error starting server"))
+				case "norun":
+					res.setOutcome(n, true, &couldNotRunError{errClosed})
+				}
+				if c.Trace == "on-after" {
+					trc.Complete(tracer.Trace{TestName: n})
+				}
+				if c.Feedback {
+					res.recordSideband(n, "peer feedback")
+				}
+			}
+			synctest.Wait()
+			p := &c11Printer{}
+			ok = res.report(p)
+			text = strings.Join(p.lines, "\n")
+			// report() may itself start trace look-ups (feedback about a case without outcome);
+			// let them run into their timeout before the bubble ends
+			time.Sleep(2 * tracer.TraceTimeout)
+		})
+		r.Eval(1)
+		r.NonTrivial("")
+		want := true
+		mustFail := 0
+		for i, c := range cs {
+			cc := c04Case{name: fmt.Sprintf("s/c%d", i), mark: c.Mark, feedback: c.Feedback}
+			switch c.Outcome {
+			case "pass":
+				cc.reached, cc.answer = true, "pass"
+			case "fail":
+				cc.reached, cc.answer = true, "mismatch"
+			case "setup":
+				cc.startFail = true
+			case "norun", "none":
+			}
+			if c.Outcome == "none" && c.Feedback {
+				// feedback about a case without any outcome is recorded as a failure of that case
+				cc.reached, cc.answer = true, "mismatch"
+			}
+			good, must := c04Truth(cc)
+			if !good {
+				want = false
+			}
+			if must {
+				mustFail++
+				if !strings.Contains(text, "FAILED: "+cc.name) {
+					r.Violate("report-failing-case-not-named", fmt.Sprintf("history %+v: case %s did not meet its expectation but is not named on a FAILED line:\n%s", cs, cc.name, text), map[string]any{"history": cs})
+				}
+			}
+		}
+		r.Outcome(fmt.Sprintf("ok=%v want=%v", ok, want))
+		if ok && !want {
+			r.Violate("report-success-despite-unmet-case", fmt.Sprintf("history %+v: report() returns success although not every case ran and met its expectation:\n%s", cs, text), map[string]any{"history": cs})
+		}
+		if !ok && want {
+			r.Violate("report-failure-despite-all-met", fmt.Sprintf("history %+v: report() returns failure although every case ran and met its expectation:\n%s", cs, text), map[string]any{"history": cs})
+		}
+		if m := c04TotalsRe.FindStringSubmatch(text); m != nil {
+			passed, _ := strconv.Atoi(m[2])
+			failed, _ := strconv.Atoi(m[3])
+			norun, expf := 0, 0
+			if mm := c04NoRunRe.FindStringSubmatch(text); mm != nil {
+				norun, _ = strconv.Atoi(mm[1])
+			}
+			if mm := c04ExpFailRe.FindStringSubmatch(text); mm != nil {
+				expf, _ = strconv.Atoi(mm[1])
+			}
+			if passed+failed+norun+expf != len(cs) {
+				r.Violate("report-totals-do-not-add-up", fmt.Sprintf("history %+v: passed %d + failed %d + could-not-run %d + expected failures %d != %d\n%s", cs, passed, failed, norun, expf, len(cs), text), map[string]any{"history": cs})
+			}
+			if failed < mustFail {
+				r.Violate("report-failed-count-too-low", fmt.Sprintf("history %+v: %d case(s) must be reported as failed but the totals say %d\n%s", cs, mustFail, failed, text), map[string]any{"history": cs})
+			}
+		} else {
+			r.Violate("report-totals-missing", fmt.Sprintf("history %+v: no totals:\n%s", cs, text), map[string]any{"history": cs})
+		}
+		if k%997 == 1 {
+			r.Sample(cs)
+		}
+	}
+	for _, a := range singles {
+		run([]one{a})
+	}
+	for _, a := range singles {
+		for _, b := range singles {
+			if !rep.Thorough() && (a.Trace == "on-none" || b.Trace == "on-none") && (a.Feedback || b.Feedback) {
+				continue
+			}
+			run([]one{a, b})
+		}
+	}
+}
